@@ -234,7 +234,7 @@ rows:
 func ufInt(name string, args []int64) int64 {
 	as := make([]string, len(args))
 	for i, a := range args {
-		as[i] = strconv.FormatInt(a, 10)
+		as[i] = strconv.FormatUint(uint64(a), 10)
 	}
 	s, ok := ufLookup(name, as)
 	if !ok {
